@@ -66,7 +66,10 @@ def run_harness(args, out_path, stats_path, timeout):
 
 
 def crash_diff(d):
-    return d["op"].startswith("mon HANG") or d["op"].startswith("mon CRASH")
+    """diffs no per-property `ignore` filter may drop: harness death, and `mon MODEL-…` lines by which a
+    harness says that the code did something the model has no notion of (correspondence broken, not by
+    itself a failing input)"""
+    return d["op"].startswith("mon HANG") or d["op"].startswith("mon CRASH") or d["op"].startswith("mon MODEL")
 
 
 class Lock:
